@@ -6,6 +6,7 @@
    whatever compile RETURNS evaluates, in the documented orientation (Model/Compiler.nested_eval), to the target and is not empty
    (C05: "never returns a sequence that evaluates to zero or to some other string"). *)
 From PauLie Require Import Pauli Matrix Compiler MatrixT CompilerT LeftFullT LinearT.
+From PauLie Require OtocLoopT UniversalT.
 From PauLieRefine Require Import PySem.
 From PauLieGen Require Import SearchGen.
 From Coq Require Import Lia ZifyBool.
@@ -478,6 +479,237 @@ Example gen_bfs_runs : exists s, py_S_bfs_case3 2 3 [PY] 8 200000 = FRet (Some s
   py_S_bfs_case3 2 3 [PY] 8 3 = FRet None.
 Proof. eexists. split; [vm_compute; reflexivity|]. split; vm_compute; reflexivity. Qed.
 
+(* ---------- total correctness: the same logic, with OutOfFuel excluded ---------- *)
+Section OutT.
+Context {S R : Type} (P : R -> Prop).
+Definition OutT (I : S -> Prop) (o : outcome S R) : Prop :=
+  match o with Ret r => P r | Next s | Cont s | Brk s => I s | OutOfFuel => False | _ => True end.
+Lemma OutT_seqo (J I : S -> Prop) o k : OutT J o -> (forall s, J s -> I s) -> (forall s, J s -> OutT I (k s)) -> OutT I (seqo o k).
+Proof. destruct o; cbn; intros; try contradiction; auto. Qed.
+Lemma OutT_uncont I o : OutT I o -> OutT I (uncont o).
+Proof. destruct o; cbn; intros; try contradiction; auto. Qed.
+Lemma OutT_unloop I o : OutT I o -> OutT I (unloop o).
+Proof. destruct o; cbn; intros; try contradiction; auto. Qed.
+Lemma OutT_weaken (I J : S -> Prop) o : (forall s, I s -> J s) -> OutT I o -> OutT J o.
+Proof. intros H. destruct o; cbn; intros; try contradiction; auto. Qed.
+Lemma OutT_fold {A} I (body : S -> A -> outcome S R) l : forall o0, OutT I o0 ->
+  (forall s x, I s -> In x l -> OutT I (body s x)) ->
+  OutT I (fold_left (fun o x => seqo o (fun s => body s x)) l o0).
+Proof.
+  induction l as [|x l IH]; intros o0 H0 Hb; [exact H0|]. cbn [fold_left]. apply IH.
+  - apply (OutT_seqo I); [exact H0|auto|]. intros s Hs. apply Hb; [exact Hs|left; reflexivity].
+  - intros s y Hs Hy. apply Hb; [exact Hs|right; exact Hy].
+Qed.
+(* while on fuel: an invariant and a measure that every iteration decreases; the fuel exceeds the measure *)
+Lemma OutT_while (I : S -> Prop) (m : S -> nat) cond body : forall fuel s0, I s0 -> (m s0 < fuel)%nat ->
+  (forall s, I s -> cond s = true -> OutT (fun s' => I s' /\ (m s' < m s)%nat) (body s)) -> OutT I (while_loop fuel cond body s0).
+Proof.
+  induction fuel as [|f IH]; intros s0 H0 Hm Hb; [lia|]. cbn [while_loop]. destruct (cond s0) eqn:C; [|exact H0].
+  pose proof (Hb s0 H0 C) as Hs. destruct (body s0); cbn [uncont] in *; cbn [OutT] in Hs; try exact Hs; try exact Logic.I.
+  - destruct Hs. apply IH; [assumption|lia|exact Hb].
+  - destruct Hs. apply IH; [assumption|lia|exact Hb].
+  - destruct Hs. assumption.
+Qed.
+Lemma OutT_finish I o : OutT I o -> finish o <> FOutOfFuel.
+Proof. destruct o; cbn; intros H; try discriminate. contradiction. Qed.
+End OutT.
+
+(* position of the first occurrence *)
+Fixpoint pos (x : pstr) (l : list pstr) : nat := match l with [] => O | y :: t => if pstr_eqb x y then O else S (pos x t) end.
+Lemma pos_lt x l : In x l -> (pos x l < length l)%nat.
+Proof. induction l as [|y t IH]; [intros []|]. cbn. destruct (pstr_eqb x y) eqn:E; [lia|]. intros [->|H]; [rewrite pstr_eqb_refl in E; discriminate|]. specialize (IH H). lia. Qed.
+Lemma pos_app_in x l y : In x l -> pos x (l ++ [y]) = pos x l.
+Proof. induction l as [|z t IH]; [intros []|]. cbn. destruct (pstr_eqb x z) eqn:E; [reflexivity|]. intros [->|H]; [rewrite pstr_eqb_refl in E; discriminate|]. rewrite IH by exact H. reflexivity. Qed.
+Lemma pos_app_new x l : ~ In x l -> pos x (l ++ [x]) = length l.
+Proof. induction l as [|z t IH]; cbn; [rewrite pstr_eqb_refl; reflexivity|]. intros H. destruct (pstr_eqb x z) eqn:E; [apply pstr_eqb_true in E; subst; exfalso; apply H; left; reflexivity|]. rewrite IH by (intros F; apply H; right; exact F). reflexivity. Qed.
+Lemma mem_b_in x l : mem_b pstr_eqb x l = true <-> In x l.
+Proof. unfold mem_b. rewrite existsb_exists. split; [intros [y [H E]]; apply pstr_eqb_true in E; subst; exact H|intros H; exists x; split; [exact H|apply pstr_eqb_refl]]. Qed.
+Lemma mem_b_notin x l : mem_b pstr_eqb x l = false <-> ~ In x l.
+Proof. rewrite <- mem_b_in. destruct (mem_b pstr_eqb x l); split; congruence. Qed.
+
+Lemma kdict_set_in' {A} (d : list (pstr * A)) k v k' v' : In (k', v') (kdict_set pstr_eqb d k v) -> (v' = v /\ k' = k) \/ In (k', v') d.
+Proof.
+  induction d as [|[k0 v0] t IH]; cbn.
+  - intros [E|[]]. injection E as <- <-. left. split; reflexivity.
+  - destruct (pstr_eqb k0 k) eqn:E0; cbn; intros [E|H].
+    + injection E as <- <-. apply pstr_eqb_true in E0. left. split; [reflexivity|exact E0].
+    + right. right. exact H.
+    + right. left. exact E.
+    + destruct (IH H) as [[-> ->]|H']; [left; split; reflexivity|right; right; exact H'].
+Qed.
+
+Definition ParentOK (seen : list pstr) (parent : list (pstr * (pstr * pstr * pstr))) : Prop :=
+  forall key v, In (key, v) parent -> In key seen /\ In (fst (fst v)) seen /\ (pos (fst (fst v)) seen < pos key seen)%nat.
+
+Ltac sxt_red := cbn [seqo bindr uncont unloop]; cbv beta iota zeta.
+Ltac sxt_step :=
+  lazymatch goal with
+  | |- OutT _ _ (uncont _) => apply OutT_uncont
+  | |- OutT _ _ (unloop _) => apply OutT_unloop
+  | |- OutT _ _ (seqo (seqo _ _) _) => rewrite seqo_assoc
+  | |- OutT _ _ (seqo (unloop _) _) => fail
+  | |- OutT _ _ (seqo (while_loop _ _ _ _) _) => fail
+  | |- OutT _ _ (seqo (if ?c then _ else _) _) => destruct c eqn:?; sxt_red
+  | |- OutT _ _ (seqo (bindr ?c _) _) => destruct c eqn:?; sxt_red
+  | |- OutT _ _ (seqo (match ?x with _ => _ end) _) => destruct x eqn:?; sxt_red
+  | |- OutT _ _ (seqo _ _) => sxt_red
+  | |- OutT _ _ (if ?c then _ else _) => destruct c eqn:?; sxt_red
+  | |- OutT _ _ (bindr ?c _) => destruct c eqn:?; sxt_red
+  | |- OutT _ _ (Ret _) => cbn [OutT]
+  | |- OutT _ _ (Next _) => cbn [OutT]; cbv beta iota
+  | |- OutT _ _ (Cont _) => cbn [OutT]; cbv beta iota
+  | |- OutT _ _ (Brk _) => cbn [OutT]; cbv beta iota
+  | |- OutT _ _ (Raised _) => exact I
+  | |- OutT _ _ NonInt => exact I
+  | |- OutT _ _ RetNone => exact I
+  | |- OutT _ _ (fold_left _ _ _) => fail
+  | |- OutT _ _ (while_loop _ _ _ _) => fail
+  | |- OutT _ _ (match ?x with _ => _ end) => destruct x eqn:?; sxt_red
+  end.
+Ltac sxt := cbv beta iota zeta; repeat sxt_step.
+
+Definition Iout (n : nat) (s : list pstr * list (pstr * (pstr * pstr * pstr)) * list pstr * pstr * list pstr) : Prop :=
+  let '(q, parent, seen, cur_k, sq) := s in
+  OtocLoopT.all_len n q /\ (forall x, In x q -> In x seen) /\ OtocLoopT.all_len n seen /\ NoDup seen /\ ParentOK seen parent.
+Definition mout (n : nat) (s : list pstr * list (pstr * (pstr * pstr * pstr)) * list pstr * pstr * list pstr) : nat :=
+  let '(q, parent, seen, cur_k, sq) := s in (length q + 2 * (Nat.pow 4 n - length seen))%nat.
+
+Lemma key_val p : py_S_key_val p = p. Proof. reflexivity. Qed.
+Lemma kdict_get_in' {A} (d : list (pstr * A)) k v : kdict_get pstr_eqb d k = Some v -> In (k, v) d.
+Proof. induction d as [|[k0 v0] t IH]; cbn; [discriminate|]. destruct (pstr_eqb k0 k) eqn:E; [intros H; injection H as <-; apply pstr_eqb_true in E; subst; left; reflexivity|intros H; right; exact (IH H)]. Qed.
+Lemma while_not_cont {S R} fuel c (b : S -> outcome S R) : forall s s', while_loop fuel c b s <> Cont s' /\ while_loop fuel c b s <> Brk s'.
+Proof.
+  induction fuel as [|f IH]; intros s s'; cbn [while_loop]; [split; discriminate|]. destruct (c s); [|split; discriminate].
+  destruct (b s); cbn [uncont]; try (split; discriminate); apply IH.
+Qed.
+Lemma OutT_seqo_while {S R} (P : R -> Prop) (J I : S -> Prop) fuel c b s0 k :
+  OutT P J (while_loop fuel c b s0) -> (forall s, J s -> OutT P I (k s)) -> OutT P I (seqo (while_loop fuel c b s0) k).
+Proof.
+  intros H Hk. pose proof (while_not_cont fuel c b s0) as N. destruct (while_loop fuel c b s0) eqn:E; cbn in *; try contradiction; auto.
+  - exfalso. apply (proj1 (N s)). reflexivity.
+  - exfalso. apply (proj2 (N s)). reflexivity.
+Qed.
+Lemma mul_ok_len a c : py_S_multiply_ok a c = true -> length a = length c /\ py_S_multiply_val a c = smul a c.
+Proof.
+  unfold py_S_multiply_ok, py_S_multiply_val. destruct (Nat.eq_dec (length a) (length c)) as [L|L].
+  - rewrite (multiply_code_ok a c L). cbn. auto.
+  - unfold multiply_code. rewrite !bits_length. destruct (Nat.eqb_spec (2 * length a) (2 * length c)); [lia|]. cbn. discriminate.
+Qed.
+Lemma NoDup_snoc (l : list pstr) x : NoDup l -> ~ In x l -> NoDup (l ++ [x]).
+Proof. intros H N. apply NoDup_rev in H. rewrite <- (rev_involutive (l ++ [x])). apply NoDup_rev. rewrite rev_app_distr. cbn. constructor; [rewrite <- in_rev; exact N|exact H]. Qed.
+
+Theorem gen_s_left_map_terminates fuel n Vf Vt A : length Vf = n -> (2 * Nat.pow 4 n < fuel)%nat -> py_S_left_map_over_a fuel Vf Vt A <> FOutOfFuel.
+Proof.
+  intros Ln Hf. unfold py_S_left_map_over_a. assert (P4 : (1 <= Nat.pow 4 n)%nat) by (pose proof (Nat.pow_nonzero 4 n); lia).
+  apply (OutT_finish (fun _ => True) (fun _ => True)).
+  sxt.
+  - exact I.
+  - rewrite !key_val.
+    apply (OutT_seqo_while _ (Iout n)); [|intros s _; destruct_state; exact I].
+    apply (OutT_while _ (Iout n) (mout n)).
+    + (* initially: the queue and the seen set hold the start string *)
+      cbn. split; [|split; [|split; [|split]]].
+      * intros g [<-|[]]. exact Ln.
+      * intros x Hx. exact Hx.
+      * intros g [<-|[]]. exact Ln.
+      * constructor; [intros []|constructor].
+      * intros ? ? [].
+    + cbn. lia.
+    + intros s Hs Hc. destruct s as [[[[q parent] seen] cur_k] sq]. cbv beta iota zeta in Hc |- *. destruct q as [|cur q']; [exact I|].
+      destruct Hs as [Hq [Hqs [Hsl [Hnd Hp]]]].
+      assert (Hcur : In cur seen) by (apply Hqs; left; reflexivity).
+      assert (Lcur : length cur = n) by (apply Hq; left; reflexivity).
+      assert (Bnd : (length seen <= Nat.pow 4 n)%nat) by (apply OtocLoopT.visited_bound; assumption).
+      rewrite !key_val. destruct (pstr_eqb cur Vt) eqn:EG; sxt_red.
+      * (* the goal was popped: walk back along the parent pointers; the position in `seen` decreases *)
+        rewrite seqo_assoc.
+        apply (OutT_seqo_while _ (fun '(q0, parent0, seen0, ck, sq0) => parent0 = parent /\ seen0 = seen /\ In ck seen)); [|intros s _; destruct_state; sxt_red; exact I].
+        apply (OutT_while _ (fun '(q0, parent0, seen0, ck, sq0) => parent0 = parent /\ seen0 = seen /\ In ck seen) (fun '(q0, parent0, seen0, ck, sq0) => pos ck seen)).
+        -- auto.
+        -- pose proof (pos_lt cur seen Hcur). lia.
+        -- intros s Hs2 Hc2. destruct_state. cbv beta iota zeta in Hs2, Hc2 |- *. destruct Hs2 as [-> [-> Hck]].
+           sxt; try exact I.
+           match goal with H : opt_is_some (kdict_get pstr_eqb parent ?k) = true, E : unopt ?dd (kdict_get pstr_eqb parent ?k) = _ |- _ =>
+             pose proof (opt_some_unopt dd _ H) as EK; rewrite E in EK; apply kdict_get_in' in EK end.
+           destruct (Hp _ _ EK) as [H1 [H2 H3]]. cbn [fst] in H2, H3. auto.
+      * (* otherwise: its neighbours; the potential |q| + 2 (4^n - |seen|) does not grow, and the pop has paid one *)
+        set (J := fun s : list pstr * list (pstr * (pstr * pstr * pstr)) * list pstr * pstr * list pstr =>
+                    Iout n s /\ (let '(q0, parent0, seen0, ck, sq0) := s in In cur seen0 /\ ck = cur) /\ (mout n s <= mout n (q', parent, seen, cur, sq))%nat).
+        assert (JP : forall s, J s -> Iout n s /\ (mout n s < mout n (cur :: q', parent, seen, cur_k, sq))%nat).
+        { intros s [H1 [_ H3]]. split; [exact H1|]. cbn [mout length] in *. lia. }
+        apply (OutT_seqo _ J); [|exact JP|intros s Hs; destruct_state; cbn [OutT]; exact (JP _ Hs)].
+        apply OutT_unloop. apply OutT_fold.
+        -- cbn [OutT]. split; [|split; [split; [exact Hcur|reflexivity]|apply le_n]].
+           split; [intros g Hg; apply Hq; right; exact Hg|]. split; [intros x Hx; apply Hqs; right; exact Hx|]. split; [exact Hsl|split; [exact Hnd|exact Hp]].
+        -- intros s a Hs Ha. destruct s as [[[[q1 parent1] seen1] ck1] sq1]. cbv beta iota zeta.
+           destruct Hs as [[Hq1 [Hqs1 [Hsl1 [Hnd1 Hp1]]]] [[Hc1 ->] Hm1]].
+           apply OutT_uncont. sxt; try exact I; try (split; [split; [assumption|split; [assumption|split; [assumption|split; assumption]]]|split; [split; [assumption|reflexivity]|assumption]]; fail).
+           (* a new string: queued, recorded as seen, its parent stored *)
+           match goal with H : py_S_multiply_ok a cur = true |- _ => destruct (mul_ok_len a cur H) as [La Ev] end. rewrite !key_val, Ev in *.
+           match goal with H : mem_b pstr_eqb (smul a cur) seen1 = false |- _ => apply mem_b_notin in H; rename H into Hnew end.
+           assert (Lnk : length (smul a cur) = n) by (rewrite smul_length; congruence).
+           assert (ES : set_add_b pstr_eqb (smul a cur) seen1 = seen1 ++ [smul a cur]).
+           { unfold set_add_b. destruct (mem_b pstr_eqb (smul a cur) seen1) eqn:E; [apply mem_b_in in E; contradiction|reflexivity]. }
+           rewrite ES.
+           assert (Hsl2 : OtocLoopT.all_len n (seen1 ++ [smul a cur])) by (intros g Hg; apply in_app_or in Hg; destruct Hg as [Hg|[<-|[]]]; [apply Hsl1; exact Hg|exact Lnk]).
+           assert (Hnd2 : NoDup (seen1 ++ [smul a cur])) by (apply NoDup_snoc; assumption).
+           pose proof (OtocLoopT.visited_bound n _ Hsl2 Hnd2) as B2. rewrite app_length in B2. cbn [length] in B2.
+           split; [|split].
+           ++ split; [|split; [|split; [exact Hsl2|split; [exact Hnd2|]]]].
+              ** intros g Hg. apply in_app_or in Hg. destruct Hg as [Hg|[<-|[]]]; [apply Hq1; exact Hg|exact Lnk].
+              ** intros x Hx. apply in_app_or in Hx. apply in_or_app. destruct Hx as [Hx|[<-|[]]]; [left; apply Hqs1; exact Hx|right; left; reflexivity].
+              ** intros key v Hin. apply kdict_set_in' in Hin. destruct Hin as [[-> ->]|Hin].
+                 --- cbn [fst]. split; [apply in_or_app; right; left; reflexivity|]. split; [apply in_or_app; left; exact Hc1|].
+                     rewrite pos_app_in by exact Hc1. rewrite pos_app_new by exact Hnew. apply pos_lt. exact Hc1.
+                 --- destruct (Hp1 _ _ Hin) as [H1 [H2 H3]]. split; [apply in_or_app; left; exact H1|]. split; [apply in_or_app; left; exact H2|].
+                     rewrite !pos_app_in by assumption. exact H3.
+           ++ split; [apply in_or_app; left; exact Hc1|reflexivity].
+           ++ cbn [mout] in *. rewrite !app_length. cbn [length]. lia.
+Qed.
+
+(* ---------- compile_target on a target with identity right block terminates ---------- *)
+Lemma ncr_no_fuel G : py_S_nested_commutator_result G <> FOutOfFuel.
+Proof.
+  unfold py_S_nested_commutator_result. apply (OutT_finish (fun _ => True) (fun _ => True)).
+  sxt; try exact I.
+  apply (OutT_seqo _ (fun _ => True)); [|auto|intros; exact I].
+  apply OutT_unloop. apply OutT_fold; [exact I|]. intros s x _ _. cbv beta iota zeta. apply OutT_uncont.
+  unfold py_S_ad_apply. destruct s as [c|]; cbn [opt_is_some negb seqo finish unopt bindr].
+  - destruct (py_S_commutes_ok x c); cbn [finish bindr]; [|exact I]. destruct (py_S_commutes_val x c || py_S_multiply_ok x c)%bool; cbn [finish bindr]; [|exact I].
+    destruct (py_S_commutes_val x c); cbn; exact I.
+  - cbn. exact I.
+Qed.
+
+Lemma compile_left_no_fuel fuel k nr fd fn N V W orc : is_identity W = true -> (2 * Nat.pow 4 (Z.to_nat k) < fuel)%nat ->
+  py_S_compile fuel k nr fd fn N V W orc <> FOutOfFuel.
+Proof.
+  intros HW Hf. unfold py_S_compile.
+  apply (OutT_finish (fun _ => True) (fun _ => True)).
+  sxt; try exact I; try congruence.
+  apply (OutT_seqo _ (fun _ => True)); [|auto|intros; exact I].
+  apply OutT_unloop. apply OutT_fold; [exact I|]. intros s As _ HAs. destruct_state. cbv beta iota zeta. apply OutT_uncont.
+  match goal with |- OutT _ _ (match ?c with _ => _ end) => assert (NF : c <> FOutOfFuel) end.
+  { apply (gen_s_left_map_terminates _ (Z.to_nat k)); [apply UniversalT.left_lengths; exact HAs|exact Hf]. }
+  match goal with |- OutT _ _ (match ?c with _ => _ end) => destruct c eqn:EL; try congruence; try exact I end.
+  - sxt; try exact I; cbn [OutT].
+    all: try match goal with H : py_S_nested_commutator_result ?G = FOutOfFuel |- _ => exact (ncr_no_fuel G H) end.
+    all: match goal with H : py_S_sequence_to_paulie_orientation ?G = FOutOfFuel |- _ => rewrite gen_s_orient in H; discriminate H end.
+  - sxt; exact I.
+Qed.
+
+(* C06, the clause "compilation terminates", for targets with identity right block: every loop of compile_target, compile and
+   left_map_over_a ends within the fuel 2 * 4^k + 1 (the number of left strings bounds the breadth-first search) *)
+Theorem gen_s_left_only_terminates fuel target k sub rest :
+  is_identity (skipn (Z.to_nat k) target) = true -> (2 * Nat.pow 4 (Z.to_nat k) < fuel)%nat -> py_S_compile_target fuel target k (OSub sub :: rest) <> FOutOfFuel.
+Proof.
+  intros HW Hf. unfold py_S_compile_target.
+  apply (OutT_finish (fun _ => True) (fun _ => True)).
+  sxt; try exact I.
+  cbn [OutT]. match goal with H : py_S_compile _ _ _ _ _ _ _ ?Wt _ = FOutOfFuel |- _ =>
+    assert (EW : Wt = skipn (Z.to_nat k) target) by (apply firstn_all2; rewrite skipn_length; lia); rewrite EW in H;
+    exact (compile_left_no_fuel _ _ _ _ _ _ _ _ _ HW Hf H) end.
+Qed.
+
 Print Assumptions gen_s_ncr.
 Print Assumptions gen_s_orient.
 Print Assumptions checked_evaluates.
@@ -491,5 +723,7 @@ Print Assumptions gen_s_left_map_members.
 Print Assumptions gen_s_compile_left_members.
 Print Assumptions gen_s_bfs_members.
 Print Assumptions gen_s_c05_left_only.
+Print Assumptions gen_s_left_map_terminates.
+Print Assumptions gen_s_left_only_terminates.
 Print Assumptions gen_search_runs.
 Print Assumptions gen_bfs_runs.
